@@ -1,5 +1,555 @@
-(* C02 — lemmas (work in progress) *)
+(* C02 — lemmas. *)
 From Coq Require Import List ZArith Bool Lia.
 From Verif Require Import C02.Model.
 Import ListNotations.
 Open Scope Z_scope.
+
+(* ------------------------------------------------------------------ *)
+(* basic facts                                                          *)
+
+Lemma tid_eqb_spec : forall a b, reflect (a = b) (tid_eqb a b).
+Proof.
+  intros [x|x] [y|y]; cbn; try (constructor; congruence);
+    destruct (Z.eqb_spec x y); constructor; congruence.
+Qed.
+
+Lemma mem_eqb_spec : forall a b, reflect (a = b) (mem_eqb a b).
+Proof.
+  intros [a1 a2] [b1 b2]; unfold mem_eqb; cbn.
+  destruct (Z.eqb_spec a1 b1), (Z.eqb_spec a2 b2); cbn; constructor; congruence.
+Qed.
+
+Lemma in_remove_first : forall m x l, In x (remove_first m l) -> In x l.
+Proof.
+  induction l as [|y l IH]; cbn; [tauto|].
+  destruct (mem_eqb_spec y m); cbn; intuition.
+Qed.
+
+Lemma in_remove_first_neq : forall m x l, In x l -> x <> m -> In x (remove_first m l).
+Proof.
+  induction l as [|y l IH]; cbn; [tauto|].
+  intros H N. destruct (mem_eqb_spec y m) as [E|E]; cbn.
+  - subst y. destruct H as [H|H]; [congruence|exact H].
+  - destruct H as [H|H]; [left; exact H|right; apply IH; assumption].
+Qed.
+
+Lemma length_remove_first : forall m l,
+  (length (remove_first m l) <= length l)%nat.
+Proof.
+  induction l as [|y l IH]; cbn; [lia|]. destruct (mem_eqb y m); cbn; lia.
+Qed.
+
+Lemma remove_first_notin : forall m l, ~ In m l -> remove_first m l = l.
+Proof.
+  induction l as [|y l IH]; cbn; [reflexivity|].
+  intros N. destruct (mem_eqb_spec y m); [subst; tauto|]. f_equal. apply IH. tauto.
+Qed.
+
+Lemma frame_eq_dec : forall a b : frame, {a = b} + {a <> b}.
+Proof. decide equality; apply Z.eq_dec. Qed.
+
+(* ------------------------------------------------------------------ *)
+(* frame kinds                                                          *)
+
+Definition acqf (f : frame) : bool :=
+  match f with
+  | FIncCheck _ | FGen _ | FSAdd _ _ | FSet _ _ | FACheck _ | FGetQ _ => true
+  | _ => false
+  end.
+Definition relf (f : frame) : bool :=
+  match f with
+  | FDec1 _ | FDec2 _ _ | FDecRem _ _ | FDecDel _ | FDrop | FFinish => true
+  | _ => false
+  end.
+Definition gcf (q : Z) (f : frame) : bool :=
+  match f with
+  | GSnap q' | GItem q' _ _ | GDel q' _ => q' =? q
+  | _ => false
+  end.
+
+(* every SRem frame of a Dec is followed, deeper in the stack, by the
+   status deletion of the same quota *)
+Fixpoint rem_ok (st : list frame) : Prop :=
+  match st with
+  | [] => True
+  | FDecRem q _ :: rest => In (FDecDel q) rest /\ rem_ok rest
+  | _ :: rest => rem_ok rest
+  end.
+
+Lemma rem_ok_app : forall a b, rem_ok b -> (forall f, In f a -> match f with FDecRem _ _ => False | _ => True end) ->
+  rem_ok (a ++ b).
+Proof.
+  induction a as [|f a IH]; cbn; intros b Hb Ha; [exact Hb|].
+  assert (Hf := Ha f (or_introl eq_refl)).
+  assert (Ha' : forall g, In g a -> match g with FDecRem _ _ => False | _ => True end)
+    by (intros g Hg; apply Ha; right; exact Hg).
+  destruct f; cbn; try contradiction; apply IH; auto.
+Qed.
+
+Lemma rem_ok_tail : forall f st, rem_ok (f :: st) -> rem_ok st.
+Proof. intros f st H. destruct f; cbn in H; tauto. Qed.
+
+Definition wf (c : config) : Prop := forall q p, cpar c q = Some p -> 0 <= p < q.
+
+Definition reachable (c : config) (t0 : Z) (s : state) : Prop :=
+  exists evs, s = run c (init t0) evs.
+
+Lemma run_app : forall c evs1 evs2 s, run c s (evs1 ++ evs2) = run c (run c s evs1) evs2.
+Proof. intros. unfold run. apply fold_left_app. Qed.
+
+Lemma reachable_ind : forall c t0 (P : state -> Prop),
+  P (init t0) -> (forall s ev, P s -> P (step c s ev)) ->
+  forall s, reachable c t0 s -> P s.
+Proof.
+  intros c t0 P H0 HS s [evs ->].
+  induction evs as [|ev evs IH] using rev_ind; [exact H0|].
+  rewrite run_app. cbn. apply HS. exact IH.
+Qed.
+
+(* ------------------------------------------------------------------ *)
+(* simplification of state projections                                  *)
+
+Ltac proj :=
+  cbn [now members status firstq stk verdict set_now set_members set_status
+       set_firstq set_stk set_verdict] in *.
+
+Lemma updt_same : forall A (f : tid -> A) k v, updt f k v k = v.
+Proof. intros. unfold updt. destruct (tid_eqb_spec k k); congruence. Qed.
+Lemma updt_other : forall A (f : tid -> A) k v k', k' <> k -> updt f k v k' = f k'.
+Proof. intros. unfold updt. destruct (tid_eqb_spec k' k); congruence. Qed.
+Lemma upd_same : forall A (f : Z -> A) k v, upd f k v k = v.
+Proof. intros. unfold upd. rewrite Z.eqb_refl. reflexivity. Qed.
+Lemma upd_other : forall A (f : Z -> A) k v k', k' <> k -> upd f k v k' = f k'.
+Proof. intros. unfold upd. destruct (Z.eqb_spec k' k); congruence. Qed.
+Lemma upd2_same : forall A (f : Z -> Z -> A) a b v, upd2 f a b v a b = v.
+Proof. intros. unfold upd2. rewrite !Z.eqb_refl. reflexivity. Qed.
+Lemma upd2_other : forall A (f : Z -> Z -> A) a b v a' b', (a', b') <> (a, b) -> upd2 f a b v a' b' = f a' b'.
+Proof.
+  intros. unfold upd2. destruct (Z.eqb_spec a' a), (Z.eqb_spec b' b); cbn; congruence.
+Qed.
+
+(* the stack of the stepping thread after a step: new frames on top of [rest] *)
+Definition pushed (c : config) (s : state) (t : tid) (f : frame) : list frame :=
+  let r := self t in
+  match f with
+  | FIncCheck q => match status s q r with Some _ => [] | None => [FGen q] end
+  | FGen q => [FSAdd q (now s + cttl c q + delta)]
+  | FSAdd q e => if Z.of_nat (length (members s q)) <? cmax c q
+                 then par_inc c q ++ [FSet q e] else []
+  | FSet _ _ => []
+  | FACheck q => match status s q r with
+                 | None => []
+                 | Some _ => match cpar c q with Some p => [FIncCheck p; FACheck p] | None => [] end
+                 end
+  | FGetQ _ => []
+  | FDec1 q => match status s q r with None => [] | Some e => [FDec2 q e] end
+  | FDec2 q e => match status s q r with
+                 | Some _ => FDecRem q e :: par_dec c q ++ [FDecDel q]
+                 | None => par_dec c q ++ [FDecDel q]
+                 end
+  | FDecRem _ _ => []
+  | FDecDel _ => []
+  | FDrop => match firstq s r with Some q => [FDec1 q] | None => [] end
+  | FFinish => []
+  | GSnap q => map (fun m => GItem q (fst m) (snd m)) (members s q)
+  | GItem q e r' => if e <=? now s then [GDel q r'] else []
+  | GDel _ _ => []
+  end.
+
+Lemma exec_stk_fun : forall c s t f rest,
+  stk (exec c s t f rest) = updt (stk s) t (pushed c s t f ++ rest).
+Proof.
+  intros. unfold exec, pushed, par_inc, par_dec.
+  destruct f; repeat match goal with
+    | |- context [match ?x with _ => _ end] => destruct x
+    end; proj; cbn [app]; rewrite <- ?app_assoc; reflexivity.
+Qed.
+
+Lemma exec_stk : forall c s t f rest t',
+  stk (exec c s t f rest) t' = if tid_eqb t' t then pushed c s t f ++ rest else stk s t'.
+Proof. intros. rewrite exec_stk_fun. reflexivity. Qed.
+
+Lemma exec_now : forall c s t f rest, now (exec c s t f rest) = now s.
+Proof.
+  intros. unfold exec.
+  destruct f; repeat match goal with
+    | |- context [match ?x with _ => _ end] => destruct x
+    end; reflexivity.
+Qed.
+
+(* effect of a step on the member lists *)
+Definition members_after (c : config) (s : state) (t : tid) (f : frame) (q' : Z) : list (Z * Z) :=
+  match f with
+  | FSAdd q e =>
+      if (q' =? q) && (Z.of_nat (length (members s q)) <? cmax c q)
+      then members s q ++ [(e, self t)] else members s q'
+  | FDecRem q e => if q' =? q then remove_first (e, self t) (members s q) else members s q'
+  | GItem q e r' => if (q' =? q) && (e <=? now s) then remove_first (e, r') (members s q) else members s q'
+  | _ => members s q'
+  end.
+
+Lemma exec_members : forall c s t f rest q',
+  members (exec c s t f rest) q' = members_after c s t f q'.
+Proof.
+  intros. unfold exec, members_after.
+  destruct f;
+    try (repeat match goal with
+         | |- context [match ?x with Some _ => _ | None => _ end] => destruct x
+         end; reflexivity).
+  - destruct (Z.of_nat (length (members s q)) <? cmax c q); proj; unfold upd;
+      destruct (q' =? q); reflexivity.
+  - destruct (e <=? now s); proj; unfold upd; destruct (q' =? q); reflexivity.
+Qed.
+
+(* effect of a step on the status maps *)
+Definition status_after (s : state) (t : tid) (f : frame) (q' r' : Z) : option Z :=
+  match f with
+  | FSet q e => if (q' =? q) && (r' =? self t) then Some e else status s q' r'
+  | FDecDel q => if (q' =? q) && (r' =? self t) then None else status s q' r'
+  | GDel q r => if (q' =? q) && (r' =? r) then None else status s q' r'
+  | _ => status s q' r'
+  end.
+
+Lemma exec_status : forall c s t f rest q' r',
+  status (exec c s t f rest) q' r' = status_after s t f q' r'.
+Proof.
+  intros. unfold exec, status_after.
+  destruct f;
+    try (repeat match goal with
+         | |- context [match ?x with Some _ => _ | None => _ end] => destruct x
+         end; reflexivity).
+  - destruct (Z.of_nat (length (members s q)) <? cmax c q); reflexivity.
+  - destruct (e <=? now s); reflexivity.
+Qed.
+
+(* ------------------------------------------------------------------ *)
+(* Invariant, part 1 (holds for every schedule and every program)       *)
+
+Record Inv1 (s : state) : Prop := {
+  i_hom : forall r, Forall (fun f => acqf f = true) (stk s (Req r)) \/
+                    Forall (fun f => relf f = true) (stk s (Req r));
+  i_gc : forall q, Forall (fun f => gcf q f = true) (stk s (Gc q));
+  i_rem : forall r, rem_ok (stk s (Req r));
+  i_B : forall q e r, In (FSet q e) (stk s (Req r)) -> In (e, r) (members s q) \/ e <= now s;
+  i_A : forall q e r, status s q r = Some e ->
+          In (e, r) (members s q) \/ e <= now s \/ In (FDecDel q) (stk s (Req r))
+}.
+
+Lemma Inv1_init : forall t0, Inv1 (init t0).
+Proof.
+  intros. constructor; cbn; intros; try (left; constructor); try constructor; try tauto; discriminate.
+Qed.
+
+Lemma pushed_kind_req : forall c s r f,
+  (acqf f = true -> Forall (fun g => acqf g = true) (pushed c s (Req r) f)) /\
+  (relf f = true -> Forall (fun g => relf g = true) (pushed c s (Req r) f)).
+Proof.
+  intros. unfold pushed, par_inc, par_dec.
+  split; intros K; destruct f; try discriminate K;
+    repeat match goal with
+    | |- context [match ?x with _ => _ end] => destruct x
+    end; cbn [app]; repeat constructor.
+Qed.
+
+Lemma pushed_kind_gc : forall c s q f,
+  gcf q f = true -> Forall (fun g => gcf q g = true) (pushed c s (Gc q) f).
+Proof.
+  intros c s q f K. unfold pushed. destruct f; try discriminate K; cbn in K.
+  - apply Z.eqb_eq in K. subst. apply Forall_forall. intros g Hg.
+    apply in_map_iff in Hg. destruct Hg as [m [<- _]]. cbn. apply Z.eqb_refl.
+  - destruct (e <=? now s); repeat constructor. exact K.
+  - constructor.
+Qed.
+
+Lemma Forall_tail : forall A (P : A -> Prop) x l, Forall P (x :: l) -> Forall P l.
+Proof. intros. inversion H; assumption. Qed.
+Lemma Forall_head : forall A (P : A -> Prop) x l, Forall P (x :: l) -> P x.
+Proof. intros. inversion H; assumption. Qed.
+
+(* a request thread never holds GC frames and vice versa *)
+Lemma req_top_kind : forall s r f rest, Inv1 s -> stk s (Req r) = f :: rest ->
+  (acqf f = true /\ Forall (fun g => acqf g = true) rest) \/
+  (relf f = true /\ Forall (fun g => relf g = true) rest).
+Proof.
+  intros s r f rest I E. destruct (i_hom s I r) as [H|H]; rewrite E in H; [left|right];
+    inversion H; subst; split; assumption.
+Qed.
+
+(* inversion of membership in the pushed frames *)
+Ltac inpush H :=
+  repeat (first
+    [ progress cbn [In app] in H
+    | match type of H with context [match ?x with _ => _ end] => destruct x eqn:? end
+    | match type of H with In _ (map _ _) =>
+        apply in_map_iff in H; let m := fresh "m" in let H1 := fresh "Hm" in
+        destruct H as [m [H H1]] end
+    | match type of H with _ \/ _ => destruct H as [H|H] end
+    | match type of H with False => contradiction end
+    | match type of H with _ = _ => (discriminate H || (inversion H; subst; clear H)) end ]).
+
+Lemma pushed_FSet : forall c s t f q e, In (FSet q e) (pushed c s t f) ->
+  f = FSAdd q e /\ (Z.of_nat (length (members s q)) <? cmax c q) = true.
+Proof.
+  intros c s t f q e H. unfold pushed, par_inc, par_dec in H.
+  destruct f; inpush H; auto.
+Qed.
+
+Lemma pushed_FDecDel : forall c s t f q, In (FDecDel q) (pushed c s t f) -> exists e, f = FDec2 q e.
+Proof.
+  intros c s t f q H. unfold pushed, par_inc, par_dec in H.
+  destruct f; inpush H; eauto.
+Qed.
+
+(* what a step can do to a member *)
+Lemma members_after_keep : forall c s t f q x, In x (members s q) ->
+  In x (members_after c s t f q) \/
+  (exists e, f = FDecRem q e /\ x = (e, self t)) \/
+  (exists e r, f = GItem q e r /\ x = (e, r) /\ e <= now s).
+Proof.
+  intros c s t f q x H. destruct f; cbn [members_after]; auto.
+  - destruct ((q =? q0) && (Z.of_nat (length (members s q0)) <? cmax c q0)) eqn:B; auto.
+    apply andb_prop in B. destruct B as [B _]. apply Z.eqb_eq in B. subst.
+    left. apply in_or_app. left. exact H.
+  - destruct (Z.eqb_spec q q0); auto. subst.
+    destruct (mem_eqb_spec x (e, self t)) as [X|X]; [right; left; eauto|].
+    left. apply in_remove_first_neq; auto.
+  - destruct ((q =? q0) && (e <=? now s)) eqn:B; auto.
+    apply andb_prop in B. destruct B as [B1 B2]. apply Z.eqb_eq in B1. apply Z.leb_le in B2. subst.
+    destruct (mem_eqb_spec x (e, r)) as [X|X]; [right; right; eauto|].
+    left. apply in_remove_first_neq; auto.
+Qed.
+
+(* a GC thread never executes request frames and vice versa *)
+Lemma gc_top : forall s q f rest, Inv1 s -> stk s (Gc q) = f :: rest -> gcf q f = true.
+Proof.
+  intros s q f rest I E. assert (G := i_gc s I q). rewrite E in G. inversion G; assumption.
+Qed.
+
+Lemma Inv1_step : forall c s ev, Inv1 s -> Inv1 (step c s ev).
+Proof.
+  intros c s ev I. destruct ev as [t o|t|x]; cbn [step].
+  - (* ECall *)
+    destruct (stk s t) eqn:E; [|exact I].
+    destruct (op_fits t o) eqn:F; [|exact I].
+    constructor; proj.
+    + intros r. destruct (tid_eqb_spec (Req r) t) as [<-|N].
+      * rewrite updt_same. destruct o; cbn in *; try discriminate;
+          try (left; repeat constructor; fail); right; repeat constructor.
+      * rewrite updt_other by congruence. apply (i_hom s I).
+    + intros q. destruct (tid_eqb_spec (Gc q) t) as [<-|N].
+      * rewrite updt_same. destruct o; cbn in *; try discriminate.
+        repeat constructor. cbn. rewrite Z.eqb_sym. exact F.
+      * rewrite updt_other by congruence. apply (i_gc s I).
+    + intros r. destruct (tid_eqb_spec (Req r) t) as [<-|N].
+      * rewrite updt_same. destruct o; cbn; tauto.
+      * rewrite updt_other by congruence. apply (i_rem s I).
+    + intros q e r H. destruct (tid_eqb_spec (Req r) t) as [<-|N].
+      * rewrite updt_same in H. destruct o; cbn in H; intuition; discriminate.
+      * rewrite updt_other in H by congruence. apply (i_B s I); assumption.
+    + intros q e r H. destruct (i_A s I q e r H) as [A|[A|A]]; auto.
+      destruct (tid_eqb_spec (Req r) t) as [<-|N].
+      * rewrite E in A. contradiction.
+      * rewrite updt_other by congruence. auto.
+  - (* EStep *)
+    destruct (stk s t) as [|f rest] eqn:E; [exact I|].
+    constructor.
+    + (* i_hom *)
+      intros r. rewrite exec_stk. destruct (tid_eqb_spec (Req r) t) as [<-|N]; [|apply (i_hom s I)].
+      destruct (req_top_kind s r f rest I E) as [[K R]|[K R]]; [left|right];
+        apply Forall_app; split; auto; apply pushed_kind_req; assumption.
+    + (* i_gc *)
+      intros q. rewrite exec_stk. destruct (tid_eqb_spec (Gc q) t) as [<-|N]; [|apply (i_gc s I)].
+      assert (G := i_gc s I q). rewrite E in G.
+      inversion G; subst. apply Forall_app; split; [apply pushed_kind_gc; assumption|assumption].
+    + (* i_rem *)
+      intros r. rewrite exec_stk. destruct (tid_eqb_spec (Req r) t) as [<-|N]; [|apply (i_rem s I)].
+      assert (R := i_rem s I r). rewrite E in R.
+      assert (Rt := rem_ok_tail _ _ R).
+      destruct f; cbn [pushed app]; try exact Rt;
+        repeat match goal with
+        | |- context [match ?x with _ => _ end] => destruct x
+        end; cbn [app]; try exact Rt; unfold par_inc, par_dec;
+        repeat match goal with
+        | |- context [match ?x with _ => _ end] => destruct x
+        end; cbn [app rem_ok In]; auto.
+      apply rem_ok_app; [exact Rt|]. intros g Hg. apply in_map_iff in Hg.
+      destruct Hg as [? [<- _]]. exact Logic.I.
+    + (* i_B *)
+      intros q e r H. rewrite exec_now, exec_members. rewrite exec_stk in H.
+      destruct (tid_eqb_spec (Req r) t) as [<-|N].
+      * (* the stepping thread *)
+        apply in_app_or in H. destruct H as [H|H].
+        -- (* FSet freshly pushed by FSAdd: the member was just added *)
+           apply pushed_FSet in H. destruct H as [-> B]. left.
+           cbn [members_after self]. rewrite Z.eqb_refl, B. cbn [andb].
+           apply in_or_app. right. left. reflexivity.
+        -- (* FSet deeper in the stack: the thread is acquiring, it removes nothing *)
+           assert (Hin : In (FSet q e) (stk s (Req r))) by (rewrite E; right; exact H).
+           destruct (i_B s I q e r Hin) as [A|A]; [|right; exact A].
+           destruct (req_top_kind s r f rest I E) as [[K R]|[K R]].
+           ++ destruct (members_after_keep c s (Req r) f q _ A) as [M|[[e' [-> _]]|[e' [r' [-> _]]]]];
+                [left; exact M|discriminate K|discriminate K].
+           ++ rewrite Forall_forall in R. apply R in H. discriminate H.
+      * (* another thread steps *)
+        destruct (i_B s I q e r H) as [A|A]; [|right; exact A].
+        destruct (members_after_keep c s t f q _ A) as [M|[[e' [-> X]]|[e' [r' [-> [X L]]]]]].
+        -- left; exact M.
+        -- (* FDecRem by another thread removes another request's member *)
+           inversion X; subst. destruct t as [r'|q']; cbn [self] in *; [congruence|].
+           assert (G := gc_top s q' _ _ I E). discriminate G.
+        -- inversion X; subst. right. exact L.
+    + (* i_A *)
+      intros q e r H. rewrite exec_now, exec_members, exec_stk. rewrite exec_status in H.
+      destruct (tid_eqb_spec (Req r) t) as [<-|N].
+      * (* the stepping thread *)
+        destruct (frame_eq_dec f (FSet q e)) as [->|NS].
+        -- (* status written now *)
+           assert (Hin : In (FSet q e) (stk s (Req r))) by (rewrite E; left; reflexivity).
+           destruct (i_B s I q e r Hin) as [A|A]; [left; exact A|right; left; exact A].
+        -- assert (Hs : status s q r = Some e /\ f <> FDecDel q).
+           { destruct f; cbn [status_after self] in H; try (split; [exact H|discriminate]).
+             - destruct (Z.eqb_spec q q0); [subst|split; [exact H|discriminate]].
+               rewrite Z.eqb_refl in H. cbn in H. inversion H; subst. congruence.
+             - destruct (Z.eqb_spec q q0); [subst|split; [exact H|congruence]].
+               rewrite Z.eqb_refl in H. cbn in H. discriminate H.
+             - exfalso. destruct (req_top_kind s r _ rest I E) as [[K _]|[K _]]; discriminate K. }
+           destruct Hs as [Hs ND].
+           destruct (i_A s I q e r Hs) as [A|[A|A]]; [|right; left; exact A|].
+           ++ destruct (members_after_keep c s (Req r) f q _ A) as [M|[[e' [-> X]]|[e' [r' [-> [X L]]]]]].
+              ** left; exact M.
+              ** (* own SRem: the status deletion is still pending below *)
+                 right. right. cbn [pushed app].
+                 assert (R := i_rem s I r). rewrite E in R. cbn in R. tauto.
+              ** inversion X; subst. right. left. exact L.
+           ++ right. right. rewrite E in A. destruct A as [A|A]; [congruence|].
+              apply in_or_app. right. exact A.
+      * (* another thread steps *)
+        assert (Hs : status s q r = Some e).
+        { destruct f; cbn [status_after] in H; auto.
+          - destruct t as [r'|q']; cbn [self] in H.
+            + destruct ((q =? q0) && (r =? r')) eqn:B; auto.
+              apply andb_prop in B. destruct B as [_ B]. apply Z.eqb_eq in B. congruence.
+            + assert (G := gc_top s q' _ _ I E). discriminate G.
+          - destruct ((q =? q0) && (r =? self t)); [discriminate|exact H].
+          - destruct ((q =? q0) && (r =? r0)); [discriminate|exact H]. }
+        destruct (i_A s I q e r Hs) as [A|[A|A]]; [|right; left; exact A|right; right; exact A].
+        destruct (members_after_keep c s t f q _ A) as [M|[[e' [-> X]]|[e' [r' [-> [X L]]]]]].
+        -- left; exact M.
+        -- inversion X; subst. destruct t as [r'|q']; cbn [self] in *; [congruence|].
+           assert (G := gc_top s q' _ _ I E). discriminate G.
+        -- inversion X; subst. right. left. exact L.
+  - (* ETick *)
+    constructor; proj; try apply I.
+    + intros q e r H. destruct (i_B s I q e r H); [left; assumption|right; lia].
+    + intros q e r H. destruct (i_A s I q e r H) as [A|[A|A]]; auto. right. left. lia.
+Qed.
+
+Lemma Inv1_reachable : forall c t0 s, reachable c t0 s -> Inv1 s.
+Proof.
+  intros c t0. apply reachable_ind; [apply Inv1_init|]. intros. apply Inv1_step. assumption.
+Qed.
+
+(* ------------------------------------------------------------------ *)
+(* Bound                                                                *)
+
+Lemma bound_step : forall c s ev q,
+  Z.of_nat (length (members s q)) <= Z.max 0 (cmax c q) ->
+  Z.of_nat (length (members (step c s ev) q)) <= Z.max 0 (cmax c q).
+Proof.
+  intros c s ev q H. destruct ev as [t o|t|x]; cbn [step].
+  - destruct (stk s t); [destruct (op_fits t o)|]; exact H.
+  - destruct (stk s t) as [|f rest]; [exact H|].
+    rewrite exec_members. destruct f; cbn [members_after]; try exact H.
+    + destruct (Z.eqb_spec q q0); cbn [andb]; [subst|exact H].
+      destruct (Z.ltb_spec (Z.of_nat (length (members s q0))) (cmax c q0)); [|exact H].
+      rewrite app_length. cbn [length]. lia.
+    + destruct (Z.eqb_spec q q0); [subst|exact H].
+      assert (L := length_remove_first (e, self t) (members s q0)). lia.
+    + destruct ((q =? q0) && (e <=? now s)) eqn:B; [|exact H].
+      apply andb_prop in B. destruct B as [B _]. apply Z.eqb_eq in B. subst.
+      assert (L := length_remove_first (e, r) (members s q0)). lia.
+  - exact H.
+Qed.
+
+Lemma bound_reachable : forall c t0 s, reachable c t0 s ->
+  forall q, Z.of_nat (length (members s q)) <= Z.max 0 (cmax c q).
+Proof.
+  intros c t0 s R q. revert s R.
+  apply (reachable_ind c t0 (fun s => Z.of_nat (length (members s q)) <= Z.max 0 (cmax c q))).
+  - cbn. lia.
+  - intros. apply bound_step. assumption.
+Qed.
+
+(* A request is in flight under q: it holds the status of an admitted slot of
+   q whose expiry has not passed and whose release has not begun. *)
+Definition inflight (s : state) (q r : Z) : Prop :=
+  exists e, status s q r = Some e /\ now s < e /\ ~ In (FDecDel q) (stk s (Req r)).
+
+Lemma inflight_member : forall s q r, Inv1 s -> inflight s q r -> In r (map snd (members s q)).
+Proof.
+  intros s q r I [e [Hs [Hn Hd]]].
+  destruct (i_A s I q e r Hs) as [A|[A|A]]; [|lia|contradiction].
+  apply in_map_iff. exists (e, r). split; [reflexivity|exact A].
+Qed.
+
+Lemma inflight_count : forall s q rs, Inv1 s -> NoDup rs ->
+  (forall r, In r rs -> inflight s q r) ->
+  (length rs <= length (members s q))%nat.
+Proof.
+  intros s q rs I ND H.
+  rewrite <- (map_length snd (members s q)).
+  apply NoDup_incl_length; [exact ND|].
+  intros r Hr. apply inflight_member; auto.
+Qed.
+
+(* ------------------------------------------------------------------ *)
+(* What one step can do to a member set                                 *)
+
+Inductive member_change (c : config) (s : state) (ev : event) (q : Z) : list (Z * Z) -> Prop :=
+| mc_same : member_change c s ev q (members s q)
+| mc_add : forall r e rest,
+    ev = EStep (Req r) -> stk s (Req r) = FSAdd q e :: rest ->
+    Z.of_nat (length (members s q)) < cmax c q ->
+    member_change c s ev q (members s q ++ [(e, r)])
+| mc_own_release : forall r e rest,           (* Dec of the request itself: response or drop *)
+    ev = EStep (Req r) -> stk s (Req r) = FDecRem q e :: rest ->
+    member_change c s ev q (remove_first (e, r) (members s q))
+| mc_expired : forall e r rest,               (* GC: only a member whose expiry has passed *)
+    ev = EStep (Gc q) -> stk s (Gc q) = GItem q e r :: rest -> e <= now s ->
+    member_change c s ev q (remove_first (e, r) (members s q)).
+
+Lemma step_member_change : forall c s ev q, Inv1 s ->
+  member_change c s ev q (members (step c s ev) q).
+Proof.
+  intros c s ev q I. destruct ev as [t o|t|x]; cbn [step].
+  - destruct (stk s t); [destruct (op_fits t o)|]; proj; apply mc_same.
+  - destruct (stk s t) as [|f rest] eqn:E; [apply mc_same|].
+    rewrite exec_members.
+    destruct t as [r|q0].
+    + destruct (req_top_kind s r f rest I E) as [[K _]|[K _]];
+        destruct f; try discriminate K; cbn [members_after self]; try apply mc_same.
+      * destruct (Z.eqb_spec q q0); cbn [andb]; [subst|apply mc_same].
+        destruct (Z.ltb_spec (Z.of_nat (length (members s q0))) (cmax c q0)); [|apply mc_same].
+        eapply mc_add; eauto.
+      * destruct (Z.eqb_spec q q0); [subst|apply mc_same].
+        eapply mc_own_release; eauto.
+    + assert (G := gc_top s q0 f rest I E).
+      destruct f; try discriminate G; cbn [members_after]; try apply mc_same.
+      cbn in G. apply Z.eqb_eq in G. subst q1.
+      destruct (Z.eqb_spec q q0); cbn [andb]; [subst|apply mc_same].
+      destruct (Z.leb_spec e (now s)); [|apply mc_same].
+      eapply mc_expired; eauto.
+  - proj. apply mc_same.
+Qed.
+
+(* a Dec of a request that holds no status in q does nothing at all *)
+Lemma dec_without_status_noop : forall c s r q,
+  stk s (Req r) = [] -> status s q r = None ->
+  let s1 := step c s (ECall (Req r) (ODec q)) in
+  let s2 := step c s1 (EStep (Req r)) in
+  stk s2 (Req r) = [] /\ members s2 = members s /\ status s2 = status s /\ firstq s2 = firstq s.
+Proof.
+  intros c s r q E H. cbn [step]. rewrite E. cbn [op_fits frames_of]. proj.
+  rewrite updt_same. cbn [exec self]. proj. rewrite H. proj.
+  rewrite updt_same. auto.
+Qed.
